@@ -52,3 +52,27 @@ Proof.
     destruct (Rltb (Rabs (y2 - y3)) (Rabs (y1 - y2))); intros [= <-]; cbn [vx vy];
     split; field; repeat split; try lra; try exact N3.
 Qed.
+
+(* the `done` flag: every later point in x order is outside the circle through the vertices *)
+Theorem done_flag_sound p1 p2 p3 p c :
+  @circumcenter ROps p1 p2 p3 = Some c ->
+  snd (@in_circumcircle ROps p1 p2 p3 p) = true ->
+  forall q, vx p <= vx q -> d2 p1 c < d2 q c.
+Proof.
+  intros Hc. unfold in_circumcircle. rewrite Hc. cbn [snd].
+  change (oltb ROps) with Rltb. cbn. intros H q Hq.
+  apply andb_prop in H. destruct H as [H1 H2]. apply Rltb_true in H1, H2.
+  unfold d2. pose proof (Rle_0_sqr (vy q - vy c)) as S. unfold Rsqr in S.
+  assert ((vx p - vx c) * (vx p - vx c) <= (vx q - vx c) * (vx q - vx c)).
+  { apply Rmult_le_compat; lra. }
+  lra.
+Qed.
+
+(* `inside` is the circle test with the epsilon slack *)
+Theorem inside_iff p1 p2 p3 p c :
+  @circumcenter ROps p1 p2 p3 = Some c ->
+  (fst (@in_circumcircle ROps p1 p2 p3 p) = true <-> d2 p c - d2 p1 c <= reps).
+Proof.
+  intros Hc. unfold in_circumcircle. rewrite Hc. cbn [fst]. cbn.
+  change (1 / 1000000000000) with reps. unfold d2. rewrite Rleb_true. reflexivity.
+Qed.
